@@ -10,7 +10,7 @@ DEFAULT_W = {
     "scope": 10, "cancel": 9, "cbcancel": 2, "shield": 2, "deadline": 3,
     "group": 7, "spawn": 9, "start": 4, "catch": 3, "catchall": 1, "finally": 4,
     "ncancel": 2, "uncancel": 1, "hcancel": 3, "hwait": 3, "started": 4,
-    "raisegroup": 1, "failafter": 2, "dldance": 1,
+    "raisegroup": 1, "failafter": 2, "dldance": 1, "idlespawn": 1,
 }
 
 
@@ -47,7 +47,8 @@ class Gen:
         r = self.rng
         for _ in range(20):
             k = self.pick()
-            if k in ("scope", "group", "catch", "catchall", "finally", "failafter", "dldance") and depth >= self.max_depth:
+            if k in ("scope", "group", "catch", "catchall", "finally", "failafter", "dldance",
+                     "idlespawn") and depth >= self.max_depth:
                 continue
             if k == "yield":
                 return ["yield"]
@@ -85,6 +86,25 @@ class Gen:
                         steps.append(r.choice([["effdl"], ["yield"], ["chkif"]]))
                 kind = r.choice(["scope", "scope", "failafter"])
                 return [kind, {"k": key, "deadline": r.choice([None, 1, 2, 3])}, steps]
+            if k == "idlespawn":
+                # a scope is cancelled while the only task below it sits behind a shield, so that its
+                # delivery runs dry; a child is then spawned into a group 0..2 plain scopes further down
+                # (the F4 shape; seeded change K2_2 breaks it for every depth but 0)
+                names = [n for i, n in enumerate(self.names) if i >= level]
+                if not names:
+                    continue
+                top = self.key("s")
+                self.scope_keys.append(top)
+                gk = self.key("g")
+                self.group_keys.append(gk)
+                inner: list = [["cancel", top]] + [["yield"] for _ in range(r.randint(2, 4))]
+                inner += [["spawn", gk, r.choice(names)], r.choice([["sleep", 2], ["yield"], ["sleep", 1]])]
+                prog: list = ["group", {"k": gk}, [["scope", {"k": self.key("s"), "shield": True}, inner]]]
+                for _ in range(r.randint(0, 2)):
+                    mid = self.key("s")
+                    self.scope_keys.append(mid)
+                    prog = ["scope", {"k": mid}, [prog]]
+                return ["scope", {"k": top}, [prog]]
             if k == "failafter":
                 key = self.key("s")
                 self.scope_keys.append(key)
